@@ -2,6 +2,7 @@ package main
 
 import (
 	"fmt"
+	"go/constant"
 	"go/types"
 	"sort"
 	"strings"
@@ -339,7 +340,77 @@ func (p *Prog) loopCheck(fn *ssa.Function, exitBlock func(b *ssa.BasicBlock, scc
 
 // leavesSCC: the successor reached through clause c is outside the SCC.
 func caseLeaves(c *SelCase, scc map[*ssa.BasicBlock]bool) bool {
-	return c.Body != nil && !scc[c.Body]
+	if c.Body == nil {
+		return false
+	}
+	if !scc[c.Body] {
+		return true
+	}
+	// a flag-conditioned loop (for active := true; active; { select { case <-stop: active = false
+	// ... } }): the clause only sets the constant that makes the loop's own test leave
+	known := map[ssa.Value]string{}
+	cur := c.Body
+	for step := 0; step < 4; step++ {
+		last := cur.Instrs[len(cur.Instrs)-1]
+		if iff, ok := last.(*ssa.If); ok {
+			base, neg := condOf(iff.Cond)
+			v, okv := known[base]
+			if !okv {
+				return false
+			}
+			truth := (v == "true") != neg
+			succ := cur.Succs[1]
+			if truth {
+				succ = cur.Succs[0]
+			}
+			return !scc[succ]
+		}
+		if _, ok := last.(*ssa.Jump); !ok || len(cur.Succs) != 1 {
+			return false
+		}
+		// only the clause's own assignments of constants may precede the jump
+		for _, in := range cur.Instrs[:len(cur.Instrs)-1] {
+			switch in.(type) {
+			case *ssa.Phi, *ssa.DebugRef:
+			default:
+				if cur != c.Body {
+					return false
+				}
+			}
+		}
+		next := cur.Succs[0]
+		pi, cnt := -1, 0
+		for k, pb := range next.Preds {
+			if pb == cur {
+				pi, cnt = k, cnt+1
+			}
+		}
+		if cnt != 1 {
+			return false
+		}
+		upd := map[ssa.Value]string{}
+		for _, in := range next.Instrs {
+			ph, ok := in.(*ssa.Phi)
+			if !ok {
+				break
+			}
+			switch e := ph.Edges[pi].(type) {
+			case *ssa.Const:
+				if e.Value != nil && e.Value.Kind() == constant.Bool {
+					upd[ph] = e.Value.ExactString()
+				}
+			default:
+				if v, okv := known[e]; okv {
+					upd[ph] = v
+				}
+			}
+		}
+		for k, v := range upd {
+			known[k] = v
+		}
+		cur = next
+	}
+	return false
 }
 
 // helperBounded decides the "joined helper" idiom: a single child goroutine whose only
